@@ -119,6 +119,10 @@ func c20WriteCatalogue(dir string, rels []c20Rel) {
 		}
 		if c20HasPlatform(r) {
 			name := fmt.Sprintf("crs-toolchain_%s_linux_amd64.tar.gz", r.Version)
+			if r.Assets == "platform-dash" {
+				// the library accepts dashes as separators as well
+				name = fmt.Sprintf("crs-toolchain-%s-linux-amd64.tar.gz", r.Version)
+			}
 			arc := c20Archive(c20Binary(r, i), r.Archive == "corrupt")
 			add(base+2, name, arc)
 			h := sha256.Sum256(arc)
@@ -145,7 +149,9 @@ func c20WriteCatalogue(dir string, rels []c20Rel) {
 }
 
 // c20HasPlatform: the release carries the archive for this platform (listed after or before the other assets).
-func c20HasPlatform(r c20Rel) bool { return r.Assets == "platform" || r.Assets == "platform-first" }
+func c20HasPlatform(r c20Rel) bool {
+	return r.Assets == "platform" || r.Assets == "platform-first" || r.Assets == "platform-dash"
+}
 
 func c20Zip(bin []byte) []byte {
 	var buf bytes.Buffer
@@ -238,6 +244,11 @@ func c20Kinds(full bool) []c20Rel {
 			}
 			ks = append(ks, c20Rel{v, f, "other", "matching", "valid"})
 			ks = append(ks, c20Rel{v, f, "platform-first", "matching", "valid"})
+			if f == "" {
+				for _, cs := range []string{"matching", "absent", "wrong"} {
+					ks = append(ks, c20Rel{v, f, "platform-dash", cs, "valid"})
+				}
+			}
 			if full {
 				ks = append(ks, c20Rel{v, f, "none", "absent", "valid"})
 			}
